@@ -92,6 +92,7 @@ type Plan struct {
 	CancelAtHandoff   []int    `json:"cancelAtHandoff,omitempty"`   // k: the caller of the request whose log is the k-th handed to the batcher goes away right then (entry in flight, nobody waiting for it)
 	ReadFaultOf       [][2]int `json:"readFaultOf,omitempty"`       // (op index, k): the k-th store read issued by that request fails
 	Hold              [][3]int `json:"hold,omitempty"`              // (op index, k, d): once that request has passed k of its scheduling points it is slow: it is not scheduled for the next d steps in which anything else can move
+	TickClock         bool     `json:"tickClock,omitempty"`         // the clock advances by one millisecond at every scheduler step (requests that start later read a later time)
 	BatchSize         int      `json:"batchSize,omitempty"`         // 0 = production value
 	CacheSize         int      `json:"cacheSize,omitempty"`         // 0 = 1024
 	MaxSteps          int      `json:"maxSteps,omitempty"`
@@ -793,6 +794,11 @@ func runInBubble(plan *Plan, res *Result) {
 	}
 	for {
 		synctest.Wait()
+		if plan.TickClock {
+			// everything else is blocked: the bubble's clock jumps
+			time.Sleep(time.Millisecond)
+			synctest.Wait()
+		}
 		// a dead batch runner is a dead process
 		s.mu.Lock()
 		runnerDead := s.cur.runnerDead && !s.cur.dead
